@@ -183,9 +183,9 @@ PROPERTIES = {
         ],
     },
     "C18": {
-        "modules": ["contracts.core_models", "contracts.c18_proofs"],
+        "modules": ["contracts.core_models", "contracts.c09_arith", "contracts.c09_bounded", "contracts.c13_types", "contracts.c13_views", "contracts.c18_proofs"],
         "level": "other",
-        "explanation": "two layers. PROVED from the real source for symbolic inputs (arity enumerated): the priority selection _first_impl behind choose_first / count_elements_* / count_leading|trailing_*, and the binary decomposition _repeat_filter_by_factor behind std.repeat. BOUNDED (labelled, never counted as proved): every listed helper (count_leading/trailing_*, count_elements_*, count, one_hot, is_one_hot, reverse_bits, rol/ror, l/rshift_fill, repeat/stretch/left/rightpad/pad, concat, apply_mask/Mask, batched/select_batch, minimum/maximum/min|max_element/min|max_index incl. first-extremum rule, clamp, choose_first/select/cond, binary_fold/batched_fold with a non-commutative associative operator, the CRC multi-bit step, the popcount tables and the overflow-free adder of count_set_bits) is executed natively on every input within the stated bound and compared with its mathematical definition. The helpers are higher-order traced code over cohdl values (std.Value, const_cond, as_pyeval): outside the prover's subset, hence bounded.",
+        "explanation": "two layers. PROVED from the real source for symbolic inputs (arity enumerated): the priority selection _first_impl behind choose_first / count_elements_* / count_leading|trailing_*; the binary decomposition _repeat_filter_by_factor behind std.repeat; binary_fold is the left (right) fold of an ABSTRACT function (1-6 arguments) and batched_fold a bracketing of its arguments in order, each exactly once (1-9 arguments, batch sizes 2-4) -- hence equal to the fold for every associative function; rol / ror rotate by n for SYMBOLIC width and n (lemma schema mod-scale); _safe_add_unsigned returns the exact sum in max(width)+1 bits for symbolic widths. BOUNDED (labelled, never counted as proved): every listed helper (count_leading/trailing_*, count_elements_*, count, one_hot, is_one_hot, reverse_bits, rol/ror, l/rshift_fill, repeat/stretch/left/rightpad/pad, concat, apply_mask/Mask, batched/select_batch, minimum/maximum/min|max_element/min|max_index incl. first-extremum rule, clamp, choose_first/select/cond, binary_fold/batched_fold with a non-commutative associative operator, the CRC multi-bit step, the popcount tables and the overflow-free adder of count_set_bits) is executed natively on every input within the stated bound and compared with its mathematical definition. The helpers are higher-order traced code over cohdl values (std.Value, const_cond, as_pyeval): outside the prover's subset, hence bounded.",
         "assumptions": COMMON_ASSUME + [
             "count_set_bits / count_clear_bits are covered through their components only (tables, batching, adder, result width): called on a constant they crash the compiler (select_with on a constant selector), so no end-to-end value is observable without a simulator",
             "emitted logic of the helpers for run-time operands is not executed (no VHDL simulator); it rests on the per-operator contracts of C02/C09",
